@@ -44,7 +44,8 @@ THEOREMS = [
         # uniqueness (Props/C01Unique.lean)
         "isSol_unique su_solves_ode_unique run_exact_unique "
         # coupled path (Props/C01Coupled.lean, Props/C01Delconj.lean)
-        "decoupled_recovers coupled_step_exact coupled_run_exact delconj_recovers coupled_run_exact_real oscKept_spec "
+        "decoupled_recovers coupled_step_exact coupled_run_exact sol2R_exists delconj_recovers coupled_run_exact_real "
+        "oscKept_spec "
         # SolveExp2 (Props/C01Exp.lean)
         "exp2_step_exact exp2_run_exact freeA_spec"
     ).split()
@@ -60,7 +61,8 @@ TRUSTED = [
     "resp. 1e-8); M^-1 F, the coupled static initial state K_ee^-1 F0 and the coupled acceleration M^-1 (F - B v - K d) "
     "are evaluated with numpy inside the harness from the model's d, v",
     "switch errors of the cut-offs (|w2/wo2| < 1e-8 treated as critical, |lam| < 5e-5 treated as zero, "
-    "wo2 < 0.005 treated as rigid) and the (w h)^-3 cancellation are floating-point facts: measured, not proved",
+    "wo2 < 0.005 treated as rigid), the (w h)^-3 cancellation of the uncoupled coefficients and the (|lam| h)^-2 "
+    "cancellation of the complex coefficients Ae, Be are floating-point facts: measured, not proved",
 ]
 RULE = (
     "(a) one case = one scalar mode (m|None, b, k, h, rb flag, rf flag) drawn per regime (rigid, rigid-damped "
@@ -75,7 +77,9 @@ RULE = (
     "data + a well-conditioned mode-shape matrix, compared on five solver variants. (q) one case = a coupled system "
     "(general M, symmetric / skew / mixed / no damping, gyroscopically coupled zero-stiffness DOF, or built from modal "
     "data with block rigid-body modes) x order x d0/v0/static_ic; the Lean model is run on the implementation's own "
-    "pc.lam, ur, ur_inv; cond(eigenvectors) > 1e6 skipped and counted. (r) the same systems (any damping, singular "
+    "pc.lam, ur, ur_inv; cond(eigenvectors) > 1e6 skipped and counted; a mode with 5e-5 <= |lam| and |lam| h < 1e-3 is "
+    "outside the conditioning domain (Ae, Be lose (|lam| h)^-2 digits by cancellation): skipped and counted, tolerance "
+    "graded by (1e-2/(|lam| h))^2 for 1e-3 <= |lam| h < 1e-2 (same rule in the oracle). (r) the same systems (any damping, singular "
     "stiffness allowed) and uncoupled ones with rf modes through SolveExp2, the Lean model run on its own E, P, Q"
 )
 ASSUMPTIONS = [
